@@ -152,12 +152,15 @@ def effective_flags(prog):
 
 # ---------------------------------------------------------------- items
 
-def random_items(rng, prod, with_param):
+def random_items(rng, prod, with_param, full=False):
     n = len(prod['syms'])
     items = []
     order = list(range(1, n + 1))
     mode = rng.random()
-    if mode < 0.35:
+    if full:
+        if mode < 0.5:
+            rng.shuffle(order)                   # every argument is rendered (in some order)
+    elif mode < 0.35:
         rng.shuffle(order)                       # permuted: argument order is visible
     elif mode < 0.5:
         order = [k for k in order if rng.random() < 0.6]      # some arguments unused
@@ -176,7 +179,7 @@ def fill_items(rng, prog):
     wp = prog.get('parse_param') is not None and prog['yk'] in 'GU'
     for _, prods in prog['rules']:
         for p in prods:
-            p['items'] = random_items(rng, p, wp)
+            p['items'] = random_items(rng, p, wp, full=prog.get('full_items', False))
 
 
 # ---------------------------------------------------------------- families
@@ -370,9 +373,12 @@ def static_lexer(flags, via):
     return txt, ({} if via == "section" else dict(flags))
 
 
-def fam_insert(rng):
+def fam_insert(rng, avoid=None):
     """fixed-shape statements: a missing token has a unique cheapest repair (an insertion), so the
-    action sees Err for it"""
+    action sees Err for it.  `avoid`: tokens declared %avoid_insert — that only ranks repairs inserting
+    them last; when the only cheapest repair needs the token it IS inserted and `$k` must be Err."""
+    if avoid is None:
+        avoid = [t for t in ["ID", "EQ", "INT", "SEMI"] if rng.random() < 0.3]
     tokens = [("LET", "let", None), ("ID", "[a-z]+", None), ("EQ", "=", "'='"), ("INT", "[0-9]+", None), ("SEMI", ";", None)]
     # keyword before identifier rule: 'let' is matched by both, the earlier rule wins on equal length
     rules = [("Prog", [{'syms': [('r', 'Stmt')]}, {'syms': [('r', 'Prog'), ('r', 'Stmt')]}]),
@@ -383,9 +389,36 @@ def fam_insert(rng):
         for _ in range(rng.randint(1, 3)):
             s += ["let", rng.choice(["a", "bb", "c"]), "=", str(rng.randint(0, 99)), ";"]
         return s
-    return dict(family="insert", tokens=tokens, skip=["[ \\t\\n]+"], rules=rules, start="Prog", avoid_insert=[],
-                sentence=sentence, alphabet=["let", "a", "=", "1", ";"],
-                extra_inputs=["let a 1 ;", "let a = 1", "let = 1 ;", "let a = 1 ; let b = ;", "a = 1 ;", "let a = = 1 ;"])
+    return dict(family="insert", tokens=tokens, skip=["[ \\t\\n]+"], rules=rules, start="Prog", avoid_insert=list(avoid),
+                sentence=sentence, alphabet=["let", "a", "=", "1", ";"], full_items=bool(avoid),
+                extra_inputs=["let a 1 ;", "let a = 1", "let = 1 ;", "let a = 1 ; let b = ;", "a = 1 ;", "let a = = 1 ;",
+                              "let a = ;", "let a = 1 ; let = 2 ;", "let a 1 ; let b = 2"])
+
+
+def fam_avoid(rng):
+    """expressions over INT only with %avoid_insert INT: on `()` or `7+()` the ONLY cheapest repair is
+    `Insert INT`, so the action of Factor: 'INT' must see Err although INT is an %avoid_insert token"""
+    tokens = [("INT", "[0-9]+", "integer" if rng.random() < 0.5 else None), ("PLUS", r"\+", None),
+              ("LP", r"\(", None), ("RP", r"\)", None)]
+    rng.shuffle(tokens)
+    rules = [("Expr", [{'syms': [('r', 'Expr'), ('t', 'PLUS'), ('r', 'Factor')]}, {'syms': [('r', 'Factor')]}]),
+             ("Factor", [{'syms': [('t', 'LP'), ('r', 'Expr'), ('t', 'RP')]}, {'syms': [('t', 'INT')]}])]
+
+    def sentence(depth=2):
+        def expr(d):
+            s = factor(d)
+            while rng.random() < 0.4:
+                s = s + ["+"] + factor(d)
+            return s
+
+        def factor(d):
+            if d > 0 and rng.random() < 0.3:
+                return ["("] + expr(d - 1) + [")"]
+            return [str(rng.randint(0, 99))]
+        return expr(depth)
+    return dict(family="avoid", tokens=tokens, skip=["[ \\t\\n]+"], rules=rules, start="Expr", avoid_insert=["INT"],
+                sentence=sentence, alphabet=["1", "(", ")", "+"], full_items=True,
+                extra_inputs=["()", "7+()", "1 +", "( 2 + )", "(()) + 3", "+ 4"])
 
 
 def fam_states(rng):
@@ -438,7 +471,7 @@ def fam_random(rng):
     return fam_list(rng)
 
 
-FAMILIES = [fam_expr, fam_list, fam_long, fam_flags, fam_insert, fam_states, fam_random]
+FAMILIES = [fam_expr, fam_list, fam_long, fam_flags, fam_insert, fam_avoid, fam_states, fam_random]
 
 
 def make_inputs(rng, fam, n):
